@@ -298,6 +298,16 @@ func TestMinimize(t *testing.T) {
 		Kind string `json:"kind"`
 	}
 	_ = json.Unmarshal(rf.History, &head)
+	if f, ok := customMinimizers[head.Prop]; ok {
+		if c, mv, before, after, tries, handled := f(rf.History, time.Now().Add(40*time.Second)); handled {
+			out, _ := json.MarshalIndent(map[string]any{"history": c, "violation": mv, "minimized": map[string]int{"ops_before": before, "ops_after": after, "replays": tries}}, "", " ")
+			if err := os.WriteFile(p, out, 0o644); err != nil {
+				t.Fatal(err)
+			}
+			fmt.Printf("MINIMIZED path=%s ops %d -> %d (%d replays)\n", p, before, after, tries)
+			return
+		}
+	}
 	s, ok := worldSpecs[head.Prop]
 	if head.Prop == "C09" {
 		s, ok = specC09(), true
